@@ -127,7 +127,7 @@ def dedupSorted (l : List String) : List String :=
 def answer (cfg : Cfg) (img : Image) (o : Opts) : String :=
   -- defaultFuel ignores option lists (finding of the proof agent: a 300-value enum exhausts it);
   -- the driver therefore runs with the proved-sufficient bound as well
-  let fuel := max (defaultFuel img) (fuelBound img)
+  let fuel := max (defaultFuel img) (BufProofs.FilterClosure.fuelBound img)
   match filterWith cfg img o fuel with
   | .ok out => "ok\t" ++ (if linksB out then "1" else "0") ++ "\t" ++ par (out.map rFile)
   | .error e =>
